@@ -217,11 +217,26 @@ pub struct MergeCase {
     /// bit 1 = the second one has (capacity is not part of a value, so the result must not depend on it)
     #[serde(default)]
     pub spare: u8,
+    /// the radials' own elevation numbers: 0 = equal to their sweep's label; 1 = the second sweep's radials carry
+    /// label + 1; 2 = every radial carries its own number (derived from its position). The statement speaks of the
+    /// *sweeps'* elevation numbers only - what the radials inside say about themselves does not decide a merge.
+    #[serde(default)]
+    pub radial_elevations: u8,
 }
 
 pub fn check_merge(case: &MergeCase) -> Check {
     let mk = |base: i64, elev: u8, az: &[u16]| -> Vec<Radial> {
-        az.iter().enumerate().map(|(i, a)| salted_radial(base + i as i64, elev, *a, case.mode)).collect()
+        az.iter()
+            .enumerate()
+            .map(|(i, a)| {
+                let own = match case.radial_elevations % 3 {
+                    0 => elev,
+                    1 => if base == 0 { elev } else { elev.wrapping_add(1) },
+                    _ => elev.wrapping_add((i as u8).wrapping_mul(7)).wrapping_add((base != 0) as u8),
+                };
+                salted_radial(base + i as i64, own, *a, case.mode)
+            })
+            .collect()
     };
     let with_capacity = |v: Vec<Radial>, spare: bool| -> Vec<Radial> {
         if !spare {
@@ -336,13 +351,14 @@ fn merge_strategy() -> impl Strategy<Value = MergeCase> {
         1 => (big(), big()),
         1 => (big(), az()),
     ];
-    (any::<u8>(), prop_oneof![3 => Just(None), 1 => any::<u8>().prop_map(Some)], pair, 0u8..5, prop_oneof![2 => Just(0u8), 1 => 1u8..4]).prop_map(|(ea, eb, (az_a, az_b), mode, spare)| MergeCase {
+    (any::<u8>(), prop_oneof![3 => Just(None), 1 => any::<u8>().prop_map(Some)], pair, 0u8..5, prop_oneof![2 => Just(0u8), 1 => 1u8..4], prop_oneof![3 => Just(0u8), 1 => Just(1u8), 1 => Just(2u8)]).prop_map(|(ea, eb, (az_a, az_b), mode, spare, radial_elevations)| MergeCase {
         elev_a: ea,
         elev_b: eb.unwrap_or(ea),
         az_a,
         az_b,
         mode,
         spare,
+        radial_elevations,
     })
 }
 
@@ -416,6 +432,7 @@ pub fn run(ctx: &Ctx, rep: &mut Report) {
             let dup = c.az_a.iter().any(|a| c.az_b.contains(a));
             CaseInfo::new(dup && c.elev_a == c.elev_b)
                 .class(c.elev_a != c.elev_b, "mismatch")
+                .class(c.radial_elevations % 3 != 0 && c.elev_a == c.elev_b && !c.az_a.is_empty() && !c.az_b.is_empty(), "radials-disagree-with-their-sweep-label")
                 .class(c.az_a.is_empty() || c.az_b.is_empty(), "one-side-empty")
                 .class(dup, "cross-duplicate")
                 .class(c.az_a.len() + c.az_b.len() > 1024, "more-than-1024-radials")
